@@ -563,6 +563,62 @@ func runTimed(scripts []*script) (cases []vh.Case, dropped int) {
 	return cases, dropped
 }
 
+// ---------------------------------------------------------------- code / nonce lengths at buffer boundaries
+
+var boundaryLens = []int{0, 1, 31, 32, 33, 63, 64, 65, 127, 128, 129, 255, 256, 257}
+var largeLens = []int{1000, 1023, 1024, 1025, 4095, 4096, 4097}
+
+func boundaryLen(r *rand.Rand, large bool) int {
+	if !large {
+		return boundaryLens[r.Intn(len(boundaryLens))]
+	}
+	if r.Intn(3) == 0 {
+		return 1000 + r.Intn(5000)
+	}
+	return largeLens[r.Intn(len(largeLens))]
+}
+
+// codelen: the configured code length at and around 32, 64, 128, 256 and large, mostly with the real generator
+// (Mock=false): the code handed to the sender has that length over the digits, exactly that code verifies, the
+// empty / shorter / longer / changed one does not
+func histCodeLen(r *rand.Rand, n int) *script {
+	c := genCfg(r)
+	c.CacheSize = 1000
+	c.Mock = r.Intn(5) == 0
+	c.CodeLen = n
+	c.TTL, c.MinInterval, c.CounterDuration = hugeDur(r), 0, hugeDur(r)
+	c.MaxVerify = 5 + r.Intn(3)
+	c.MaxCount = 3
+	ps := genPairs(r, 1+r.Intn(2), 6)
+	q := ps[0]
+	s := &script{Class: "codelen", Cfg: c}
+	v := func(code string) opScript {
+		return opScript{K: "verify", A: q.a, P: q.p, Code: code, Hash: "right", Pos: r.Intn(1 << 16)}
+	}
+	s.Ops = append(s.Ops, genSend(r, q), v("empty"), v("right"))
+	hows := []string{"mut", "short", "long", "stale", "empty"}
+	for i := 0; i < 1+r.Intn(2); i++ {
+		s.Ops = append(s.Ops, v(hows[r.Intn(len(hows))]))
+	}
+	if n <= 300 {
+		s.Ops = append(s.Ops, genSend(r, q), v("stale"), v("right"))
+	}
+	return s
+}
+
+func nonceOfLen(r *rand.Rand, base string, n int) *nonceScript {
+	s := &nonceScript{Base: base, N: n}
+	l := int64(len(base))
+	for i := 0; i < n; i++ {
+		t := r.Int63n(l)
+		if r.Intn(4) == 0 {
+			t = l - 1
+		}
+		s.Targets = append(s.Targets, t)
+	}
+	return s
+}
+
 // ---------------------------------------------------------------- nonce scripts
 
 func genNonce(r *rand.Rand, raw bool) *nonceScript {
@@ -575,8 +631,13 @@ func genNonce(r *rand.Rand, raw bool) *nonceScript {
 		s.N = -1 - r.Intn(3)
 	case x == 2:
 		s.N = 1
+	case x == 3:
+		s.N = boundaryLen(r, false) // around the powers of two a buffer strategy may switch at
 	default:
 		s.N = 2 + r.Intn(14)
+	}
+	if r.Intn(40) == 0 {
+		s.N = boundaryLen(r, true)
 	}
 	l := int64(len(s.Base))
 	for i := 0; i < s.N; i++ {
@@ -661,12 +722,24 @@ func corpus() ([]*script, []*nonceScript) {
 func generate(e *vh.Env) {
 	r := e.Rnd
 	ch, cn := corpus()
+	// lengths just above the usual buffer sizes and a large one: every run
+	for _, n := range []int{33, 65, 4096} {
+		h := histCodeLen(r, n)
+		h.Cfg.Mock = false
+		ch = append(ch, h)
+		cn = append(cn, nonceOfLen(r, "0123456789", n))
+	}
 	for _, s := range ch {
 		e.Emit(runScript(s))
 	}
 	for _, s := range cn {
 		e.Emit(runNonce(s))
 	}
+	ncl := e.Scale(40, 400)
+	for i := 0; i < ncl; i++ {
+		e.Emit(runScript(histCodeLen(r, boundaryLen(r, i%12 == 11))))
+	}
+	e.Meta["codelen_histories"] = ncl + 3
 	nh := e.Scale(900, 12000)
 	focus := strings.SplitN(e.Focus, "/", 2)[0]
 	total := 0
